@@ -15,3 +15,21 @@ pub mod c11;
 pub mod c19;
 #[cfg(kani)]
 pub mod c16;
+#[cfg(kani)]
+pub mod c04;
+#[cfg(kani)]
+pub mod c06;
+#[cfg(kani)]
+pub mod c05;
+#[cfg(kani)]
+pub mod c02;
+#[cfg(kani)]
+pub mod c09;
+#[cfg(kani)]
+pub mod c08;
+#[cfg(kani)]
+pub mod c13;
+#[cfg(kani)]
+pub mod c17;
+#[cfg(kani)]
+pub mod c18;
